@@ -63,7 +63,7 @@ def cmd_import(src, pid, name):
     return 0
 
 
-def evaluate(name, tier):
+def evaluate(name, tier, target_only=False):
     dest = os.path.join(STORE, name)
     meta = json.load(open(os.path.join(dest, 'meta.json')))
     root, applied, why = se.patched_copy(os.path.join(dest, 'patch.diff'))
@@ -73,14 +73,19 @@ def evaluate(name, tier):
             return meta
         checks = [c['property_id'] for c in json.load(open(os.path.join(
             VERIF, 'MANIFEST.json')))['checks']]
+        if target_only:
+            checks = [meta['property']]
         loud = {}
         for pid in checks:
             code, kinds, secs, out = st.run_check(pid, tier, root)
             if code != 0:
                 loud[pid] = {'exit': code, 'kinds': kinds[:3],
                              'tail': out[-1500:]}
-        meta['checks'] = {'tier': tier, 'silent': sorted(
+        key = 'checks' if not target_only else f'checks_{tier}_target'
+        meta[key] = {'tier': tier, 'silent': sorted(
             set(checks) - set(loud)), 'not_silent': loud}
+        if target_only:
+            meta.setdefault('checks', {})
     finally:
         shutil.rmtree(root, ignore_errors=True)
     with open(os.path.join(dest, 'meta.json'), 'w') as fout:
@@ -88,18 +93,21 @@ def evaluate(name, tier):
     return meta
 
 
-def cmd_run(only, tier, jobs):
+def cmd_run(only, tier, jobs, target_only=False):
     names = sorted(n for n in os.listdir(STORE)
                    if os.path.isdir(os.path.join(STORE, n)) and only in n)
     rows = []
     with concurrent.futures.ThreadPoolExecutor(jobs) as pool:
-        for meta in pool.map(lambda n: evaluate(n, tier), names):
+        for meta in pool.map(lambda n: evaluate(n, tier, target_only),
+                             names):
             rows.append(meta)
-            loud = meta['checks'].get('not_silent', meta['checks'])
+            shown = meta.get(f'checks_{tier}_target') if target_only \
+                else meta['checks']
+            loud = shown.get('not_silent', shown)
             print(f"{meta['name']:10s} {meta['property']} not_silent="
                   f"{ {k: v['kinds'] for k, v in loud.items()} if isinstance(loud, dict) and loud and 'error' not in loud else loud}",
                   flush=True)
-    if not only:
+    if not only and not target_only:
         with open(os.path.join(STORE, 'RESULTS.md'), 'w') as fout:
             fout.write('# Behaviour-preserving refactorings (from independent '
                        'sub-agents) vs. all checks\n\n| refactoring | written '
@@ -125,10 +133,11 @@ def main():
     run.add_argument('--only', default='')
     run.add_argument('--tier', default='quick')
     run.add_argument('--jobs', type=int, default=4)
+    run.add_argument('--target-only', action='store_true')
     args = ap.parse_args()
     if args.cmd == 'import':
         return cmd_import(args.src, args.id.upper(), args.name)
-    return cmd_run(args.only, args.tier, args.jobs)
+    return cmd_run(args.only, args.tier, args.jobs, args.target_only)
 
 
 if __name__ == '__main__':
